@@ -34,6 +34,70 @@ def _offgrid(p: Path) -> Optional[bool]:
     return None
 
 
+def _rewrites(p: Path) -> List[Event]:
+    """stores to order.price that can change it (storing the value it already has is not a rewrite)"""
+    out = []
+    for e in stores(p, "price"):
+        if key(strip_ver(e.base)) != "order":
+            continue
+        if strip_ver(e.value) == PRICE:
+            continue
+        out.append(e)
+    return out
+
+
+def _peel(t: Term):
+    """t = sign * core with constant factors +-1 removed"""
+    sign = 1
+    while True:
+        if t[0] == "bin" and t[1] == "*" and (t[2][0] == "const" or t[3][0] == "const"):
+            c, r = (t[2], t[3]) if t[2][0] == "const" else (t[3], t[2])
+            if c[1] in (1, 1.0) and not isinstance(c[1], bool):
+                t = r
+                continue
+            if c[1] in (-1, -1.0):
+                sign, t = -sign, r
+                continue
+            return None
+        if t[0] == "un" and t[1] == "-":
+            sign, t = -sign, t[2]
+            continue
+        return sign, t
+
+
+def _level_form(level: Term):
+    """('floor' | 'ceil', argument) for the ways a tick level is written: floor(x), ceil(x), x // y,
+    -((-x) // y), s * floor(s * x) with s = +-1 (which is ceil(x) for s = -1)"""
+    pk = _peel(strip_ver(level))
+    if pk is None:
+        return None
+    sign, t = pk
+    if t[0] == "call" and key(t[1]) in ("math.floor", "math.ceil") and len(t[2]) == 1:
+        fn = key(t[1]).split(".")[-1]
+        ak = _peel(t[2][0])
+        if ak is None:
+            return None
+        asign, a = ak
+        if a[0] == "bin" and a[1] == "/" :
+            nk = _peel(a[2])
+            if nk is not None and nk[0] == -1:
+                asign, a = -asign, ("bin", "/", nk[1], a[3])
+        if sign == 1 and asign == 1:
+            return fn, a
+        if sign == -1 and asign == -1:
+            return ("ceil" if fn == "floor" else "floor"), a
+        return None
+    if t[0] == "bin" and t[1] == "//":
+        nk = _peel(t[2])
+        if nk is None:
+            return None
+        if sign == 1 and nk[0] == 1:
+            return "floor", ("bin", "/", nk[1], t[3])
+        if sign == -1 and nk[0] == -1:
+            return "ceil", ("bin", "/", nk[1], t[3])
+    return None
+
+
 @rule("C19.R1", "the price of an order is rewritten exactly when it is a limit price that is not a multiple of the tick size", "T3 control dependence", floor=2)
 def r1(ctx: Ctx) -> None:
     f = ctx.func(ADD)
@@ -42,7 +106,7 @@ def r1(ctx: Ctx) -> None:
         if p.exit[0] == "raise":
             continue
         n += 1
-        st = [e for e in stores(p, "price") if key(strip_ver(e.base)) == "order"]
+        st = _rewrites(p)
         og = _offgrid(p)
         if og is None:
             ctx.violated(f, f.node, "the on-grid test is decided on every accepting path", "`price is not None and price % tick_size != 0` decided", p.describe()[:160])
@@ -70,7 +134,7 @@ def r2(ctx: Ctx) -> None:
     for p in _paths(ctx):
         if p.exit[0] == "raise":
             continue
-        st = [e for e in stores(p, "price") if key(strip_ver(e.base)) == "order"]
+        st = _rewrites(p)
         if len(st) != 1:
             continue
         side = [pol for c, pol, _ in p.conds if key(strip_ver(c)) in ("order.is_buy", "is_buy")]
@@ -88,28 +152,52 @@ def r2(ctx: Ctx) -> None:
                 level = v[2]
         quotient = ("bin", "/", PRICE, TICK)
         want_fn = "math.floor" if buy else "math.ceil"
-        ok = level is not None and (
-            (level[0] == "call" and key(level[1]) == want_fn and len(level[2]) == 1 and level[2][0] == quotient)
-            or (buy and level == ("bin", "//", PRICE, TICK))
-            or (not buy and level == ("un", "-", ("bin", "//", ("un", "-", PRICE), TICK)))
-        )
         seen.add(buy)
-        ctx.check(ok, f, st[0].node, f"{'buy' if buy else 'sell'}: new price = {'floor' if buy else 'ceil'}(price / tick_size) * tick_size", f"{want_fn}(order.price / self.tick_size) * self.tick_size", short(v))
+        form = _level_form(level) if level is not None else None
+        label = f"{'buy' if buy else 'sell'}: new price = {'floor' if buy else 'ceil'}(price / tick_size) * tick_size"
+        expd = f"{want_fn}(order.price / self.tick_size) * self.tick_size"
+        if form is not None and form[1] == quotient:
+            ctx.check("math." + form[0] == want_fn, f, st[0].node, label, expd, short(v))
+        elif level is not None and any(s_[0] == "call" and key(s_[1]) in ("round", "int", "math.trunc") for s_ in subterms(level)):
+            ctx.violated(f, st[0].node, label, expd, short(v))
+        elif form is not None and not (PRICE in list(subterms(form[1])) and TICK in list(subterms(form[1]))):
+            # a level computed from something other than price and tick size of this market (e.g. a cached
+            # reciprocal): whether it equals price / tick_size is not decidable here
+            ctx.unrec(f, st[0].node, label, "the tick level is not written as floor/ceil of order.price / self.tick_size", short(v))
+        elif level is None:
+            ctx.violated(f, st[0].node, label, expd, short(v))
+        else:
+            ctx.violated(f, st[0].node, label, expd, short(v))
     ctx.check(seen == {True, False}, f, f.node, "both sides have a rounding path", "buy and sell", str(sorted(seen)))
     # the helpers themselves (public API) agree with the table
     for q, fn in (("Market.convert_to_tick_level_rounded_lower", "math.floor"), ("Market.convert_to_tick_level_rounded_upper", "math.ceil")):
         g = ctx.func(q)
         for p in ctx.paths(q):
+            if p.exit[0] == "raise":
+                continue
             r = strip_ver(p.exit[1]) if p.exit[0] == "return" else NONE
-            ok = r == ("call", ("name", fn), (("bin", "/", ("sym", "price"), TICK),), (), None) and not p.conds
-            ctx.check(ok, g, g.node, f"{q} = {fn}(price / tick_size)", f"{fn}(price / self.tick_size)", short(r))
+            form = _level_form(r)
+            quot = ("bin", "/", ("sym", "price"), TICK)
+            if form is not None and form[1] == quot:
+                ctx.check("math." + form[0] == fn, g, g.node, f"{q} = {fn}(price / tick_size)", f"{fn}(price / self.tick_size)", short(r))
+            elif form is not None and not (TICK in list(subterms(form[1]))):
+                ctx.unrec(g, g.node, f"{q} = {fn}(price / tick_size)", "the level is not written as floor/ceil of price / self.tick_size", short(r))
+            else:
+                ctx.violated(g, g.node, f"{q} = {fn}(price / tick_size)", f"{fn}(price / self.tick_size)", short(r))
     g = ctx.func("Market.convert_to_tick_level")
     for p in ctx.paths(g.qualname, inline=CHAIN):
         side = [pol for c, pol, _ in p.conds if key(strip_ver(c)) == "is_buy"]
         _side_by_truth(ctx, g, p)
         r = strip_ver(p.exit[1]) if p.exit[0] == "return" else NONE
-        ok = len(side) == 1 and r[0] == "call" and key(r[1]) == ("math.floor" if side[0] else "math.ceil")
-        ctx.check(ok, g, g.node, "convert_to_tick_level: buy -> lower, sell -> upper", "floor for buys, ceil for sells", f"is_buy={side} -> {short(r)}")
+        if p.exit[0] == "raise":
+            continue
+        form = _level_form(r)
+        if len(side) == 1 and form is not None:
+            ctx.check(form[0] == ("floor" if side[0] else "ceil"), g, g.node, "convert_to_tick_level: buy -> lower, sell -> upper", "floor for buys, ceil for sells", f"is_buy={side} -> {short(r)}")
+        elif len(side) != 1:
+            ctx.violated(g, g.node, "convert_to_tick_level: buy -> lower, sell -> upper", "one decision on is_buy", f"is_buy={side} -> {short(r)}")
+        else:
+            ctx.unrec(g, g.node, "convert_to_tick_level: buy -> lower, sell -> upper", "the returned level is not written as floor / ceil", short(r))
 
 
 @rule("C19.R3", "rounding happens before quotes are refreshed and the order is logged (that it precedes insertion into the heap is C02.R3)", "T5 ordering", floor=1)
